@@ -50,6 +50,19 @@ def handle : List Sexp → Option String
       some (match GenK.decodeLength (indef == "1") (← fo.toInt?) a with
         | .ok l => s!"ok {l}"
         | .error e => "err " ++ errName e)
+  | .atom "KCRANGE" :: .atom lo :: .atom hi :: .atom z :: [] => do
+      some (match GenK.rangeTest (← lo.toInt?) (← hi.toInt?) (← z.toInt?) with | .ok _ => "ok" | .error e => "err " ++ errName e)
+  | .atom "KCSIZE" :: .atom lo :: .atom hi :: args => do
+      let a ← intArgs args
+      some (match GenK.sizeTest (← lo.toInt?) (← hi.toInt?) a with | .ok _ => "ok" | .error e => "err " ++ errName e)
+  | .atom "KCSINGLE" :: .atom z :: args => do
+      let a ← intArgs args
+      some (match GenK.singleValueTest a (← z.toInt?) with | .ok _ => "ok" | .error e => "err " ++ errName e)
+  | .atom "KCALPHA" :: .atom n :: args => do
+      -- KCALPHA n s1..sn v...
+      let a ← intArgs args
+      let k ← n.toNat?
+      some (match GenK.alphabetTest (a.take k) (a.drop k) with | .ok _ => "ok" | .error e => "err " ++ errName e)
   | .atom "KDECTAG" :: args => do
       let a ← intArgs args
       some (out (GenK.decodeTag a))
